@@ -35,6 +35,7 @@ type PipeGenOpts struct {
 	Volume      bool // one worker, several hundred datagrams, a slow consumer: more than a megabyte of output waits in or has passed through one worker's hands
 	MidPolls    bool // stats API read in the middle of phases as well
 	SockLoss    bool // tiny socket receive queue: bursts lose datagrams before the collector reads them
+	Early       bool // the first phase is sent while the collector is still starting (slow disk)
 	LongGap     int  // seconds of silence between the first phase (announcements) and the later ones
 	Dyn         bool // dynamic workers: load peak, long idle period (scale-down), then traffic again
 	Hostile     bool // add hostile exporters (structurally hostile and byte-corrupted datagrams) and liveness probes
@@ -578,6 +579,14 @@ func genPipePlan(seed int64, o PipeGenOpts) *PipePlan {
 			nPhases = 3
 			p.NPhases = 3
 		}
+	}
+	if o.Early && !o.Dyn {
+		for i := range p.Dels {
+			if p.Dels[i].Phase == 0 {
+				p.Dels[i].Early = true
+			}
+		}
+		p.Cfg.DiskReadMs = []int{5, 20, 100, 300}[r.Intn(4)]
 	}
 	if o.LongGap > 0 && !o.Dyn {
 		p.Profile = "long-silence"
